@@ -28,6 +28,7 @@ let table : (Stdlib.String.t * (z list -> z list)) list = [   (* Stdlib.: the ex
   ("idfrag_premises", run_idfrag_premises);
   ("enum", run_enum);
   ("slice", run_slice);
+  ("slicenotif", run_slicenotif);
   ("proxy", run_proxy);
   ("staticdecl", run_staticdecl);
   ("xmidoc_enc", run_xmidoc_enc);
